@@ -561,6 +561,13 @@ theorem shapeRepeatList_len_le_cap (s : Shape) (rs : List Nat) (axis : Int) (t :
   obtain ⟨_, _, rfl⟩ := h
   rw [setPy_length]; exact hc
 
+
+/-- known finding `eval.fixed-buffer-result`: an accepted view can have MORE elements than its operand, so a result
+    container that keeps the operand's fixed capacity (what `eval()` resolves for `ndarray_t<std::array<T,N>,…>`)
+    cannot hold the result: `repeat((2,3), 2, axis 1)` has 12 elements, the operand's buffer 6 -/
+theorem eval_fixed_buffer_counterexample :
+    ∃ t, shapeRepeat [2,3] 2 1 = some t ∧ ¬ (prod t ≤ prod [2,3]) := ⟨[2,6], by decide, by decide⟩
+
 /-! non-vacuity: a rank-3 shape in a container bounded by 4, reps of length 5 in a container bounded by 8 -/
 example : (shapeTile [2,3,4] [1,2,1,2,1]).length = 5 ∧ 5 ≤ max 4 8 := by decide
 example : broadcastShape2 [3,1] [2,1,4] = some [2,3,4] := by decide
